@@ -233,6 +233,13 @@ theorem enableEvF_breach (s : State) (e : Nat) : (enableEvF s e).1.breach = true
   show (enableEv (refuseAdd s (s.evs e).fd) e).1.breach = true
   rw [(enableEv_k (refuseAdd s (s.evs e).fd) e).breach]; rfl
 
+theorem ctlLEv_breach (s : State) (en : Bool) (e : Nat) : (ctlLEv s en e).1.breach = true := rfl
+
+theorem rebornEv_k (s : State) (e : Nat) (h : Inv s) : KProv s (rebornEv s e).1 := by
+  unfold rebornEv; split
+  · exact KProv.refl s
+  · exact (destroyEv_k s e h).trans (setEv_k _ _ _)
+
 theorem act_sync (s : State) (a : Act) (h : Inv s) (hs : SyncInv s) : SyncInv (act s a).1 := by
   cases a with
   | init e f m o => exact hs.step h (initEv_k s e f m o h)
@@ -248,6 +255,8 @@ theorem act_sync (s : State) (a : Act) (h : Inv s) (hs : SyncInv s) : SyncInv (a
   | post k => exact hs
   | cond f c => exact hs.step h (condFd_k s f c)
   | enableF e => exact fun hb => absurd ((enableEvF_breach s e).symm.trans hb) (by simp)
+  | reborn e => exact hs.step h (rebornEv_k s e h)
+  | ctlL en e => exact fun hb => absurd ((ctlLEv_breach s en e).symm.trans hb) (by simp)
 
 theorem runScript_sync (sc : List Act) : ∀ s : State, Inv s → SyncInv s → SyncInv (runScript s sc) := by
   induction sc with
@@ -314,6 +323,8 @@ theorem act_mono (s : State) (a : Act) (h : Inv s) (hb : (act s a).1.breach = fa
   | post k => exact hb
   | cond f c => rw [← (condFd_k s f c).breach]; exact hb
   | enableF e => exact absurd ((enableEvF_breach s e).symm.trans hb) (by simp)
+  | reborn e => rw [← (rebornEv_k s e h).breach]; exact hb
+  | ctlL en e => exact absurd ((ctlLEv_breach s en e).symm.trans hb) (by simp)
 
 theorem runScript_mono (sc : List Act) : ∀ s : State, Inv s → (runScript s sc).breach = false → s.breach = false := by
   induction sc with
@@ -447,6 +458,7 @@ theorem step_sync (s : State) (st : Step) (h : Inv s) (hs : SyncInv s) : SyncInv
   | pass be r => exact pass_sync s r h hs
   | badfPass fds => exact removeInvalid_sync fds s h hs
   | loop be tms r nx => exact loopPass_sync s tms r nx h hs
+  | loopLag tms r nx => exact loopPass_sync s tms r nx h hs
   | loopBadf trig tms fds nx => exact loopBadf_sync s tms fds nx h hs
   | defer nx => exact runScripts_sync nx s h hs
 
